@@ -1,6 +1,6 @@
 """BCP socket client."""
 import json
-from urllib.parse import urlsplit, parse_qs, quote, unquote, urlunparse
+from urllib.parse import urlsplit, quote, unquote_plus, urlunparse
 
 import asyncio
 
@@ -47,30 +47,29 @@ def decode_command_string(bcp_string) -> Tuple[str, dict]:
         kwargs = json.loads(bcp_command.query[5:])
         return bcp_command.path, kwargs
 
-    try:
-        kwargs = parse_qs(bcp_command.query, keep_blank_values=True)
-    except AttributeError:
-        kwargs = dict()
+    kwargs = dict()
+    for pair in bcp_command.query.split('&'):
+        if not pair:
+            continue
+        name, _, value = pair.partition('=')
+        name = unquote_plus(name)
+        if name in kwargs:
+            continue
+        # type prefixes are tested on the encoded value. the colon of a string value is always percent encoded
+        if value.startswith('int:'):
+            kwargs[name] = int(unquote_plus(value[4:]))
+        elif value.startswith('float:'):
+            kwargs[name] = float(unquote_plus(value[6:]))
+        elif value.lower() == 'bool:true':
+            kwargs[name] = True
+        elif value.lower() == 'bool:false':
+            kwargs[name] = False
+        elif value == 'NoneType:':
+            kwargs[name] = None
+        else:
+            kwargs[name] = unquote_plus(value)
 
-    for k, v in kwargs.items():
-        if isinstance(v[0], str):
-            if v[0].startswith('int:'):
-                v[0] = int(v[0][4:])
-            elif v[0].startswith('float:'):
-                v[0] = float(v[0][6:])
-            elif v[0].lower() == 'bool:true':
-                v[0] = True
-            elif v[0].lower() == 'bool:false':
-                v[0] = False
-            elif v[0] == 'NoneType:':
-                v[0] = None
-            else:
-                v[0] = unquote(v[0])
-
-            kwargs[k] = v
-
-    return (bcp_command.path,
-            dict((k, v[0]) for k, v in kwargs.items()))
+    return bcp_command.path, kwargs
 
 
 def encode_command_string(bcp_command, **kwargs) -> str:
